@@ -3,7 +3,10 @@
 Implementation functions driven (real code from $VERIF_REPO/src/highdicom/volume.py):
   Volume/VolumeGeometry.geometry_equal, .match_geometry (incl. the permute/pad/getitem it performs),
   VolumeToVolumeTransformer(...)(indices) with round_output/check_bounds,
-  Volume/VolumeGeometry.map_reference_to_indices(round_output, check_bounds).
+  Volume/VolumeGeometry.map_reference_to_indices(round_output, check_bounds),
+  Volume.match_geometry(mode=CONSTANT/EDGE/MINIMUM/MAXIMUM/MEAN/MEDIAN, constant_value=...) (voxel values compared),
+  result.geometry_equal(target, tol=T) after a successful match, VolumeToVolumeTransformer.affine,
+  map_indices_to_reference, and transformer vs. map_indices_to_reference -> map_reference_to_indices on the same points.
 Model: coq/theories/C09_Model.v; theorems: C09_Props.v.
 
 Geometries are generated as exact rationals (orthonormal rational direction
@@ -37,10 +40,12 @@ MODELLED = ('volume.py: _VolumeBase.geometry_equal, match_geometry (axis alignme
             'start/end/pad/crop arithmetic, requires_crop flag, slice checks of _prepare_getitem_index, '
             'slice.indices, resulting affine and voxel placement), map_reference_to_indices (bounds check before '
             'rounding, RuntimeError), VolumeToVolumeTransformer (inv(B).A by adjugate, rounding, bounds check '
-            'after rounding, ValueError)')
+            'after rounding, ValueError), VolumeToVolumeTransformer.affine, map_indices_to_reference, '
+            'the pad options of match_geometry as implemented by Volume.pad (constant_value; EDGE = nearest '
+            'source voxel per axis; MINIMUM/MAXIMUM/MEAN/MEDIAN of the label array)')
 STRATA = ['geq', 'geq_for', 'geq_tol', 'match_direct', 'match_chain', 'match_outside', 'match_geomsrc',
           'match_perturbed', 'match_refuse_meta', 'v2v', 'v2v_boundary', 'v2v_outside', 'r2i', 'r2i_boundary',
-          'bad_points']
+          'bad_points', 'match_mode', 'v2v_affine', 'i2r', 'via_phys']
 RULE = ('source geometries: rational orthonormal directions (48 signed permutations, Pythagorean and quaternion '
         'rotations, optionally mirrored), rational spacings, dyadic/rational positions, shapes 1..5 (..7 thorough), '
         'both coordinate systems, FoR UID present/absent; targets: (a) exact (sigma,k,a,m) per-axis '
@@ -51,7 +56,7 @@ RULE = ('source geometries: rational orthonormal directions (48 signed permutati
         'the allclose threshold; point sets inside, exactly on the +-0.5 faces (dyadic geometries) and outside, '
         'int and float inputs, round_output x check_bounds; malformed point arrays. non-trivial = source with > 1 '
         'voxel and (for point cases) >= 1 point; distinct by case hash')
-NOT_EXECUTED = ['pad modes other than CONSTANT in match_geometry (only the geometry is property-relevant)']
+NOT_EXECUTED = ['per_channel=True statistics padding of multi-channel volumes in match_geometry']
 EXHAUSTIVE = {'quick': False, 'thorough': False}
 
 FOR_UIDS = {None: None, 1: '1.2.826.0.1.3680043.8.498.1', 2: '1.2.826.0.1.3680043.8.498.2'}
@@ -602,6 +607,50 @@ def _bad_points(rng, hi):
     return c
 
 
+PAD_MODES = ['CONSTANT', 'CONSTANT', 'EDGE', 'EDGE', 'MINIMUM', 'MAXIMUM', 'MEAN', 'MEDIAN']
+COQ_MODE = {'CONSTANT': 'PConst', 'EDGE': 'PEdge', 'MINIMUM': 'PMin', 'MAXIMUM': 'PMax', 'MEAN': 'PMean',
+            'MEDIAN': 'PMedian'}
+
+
+def _match_mode(rng, hi):
+    """match_geometry with the pad options; voxel VALUES are compared with the model"""
+    r = rng.random()
+    if r < 0.6:
+        c = _match_direct(rng, hi, modes=['pad_before', 'pad_after', 'pad_both', 'partly', 'outside_before',
+                                          'outside_after', 'any', 'reversed', 'strided', 'id'])
+    elif r < 0.8:
+        c = _match_chain(rng, hi)
+    else:
+        c = _match_perturbed(rng, hi)
+    c['orig_kind'] = c['kind']
+    c['kind'] = 'match_mode'
+    c['src_kind'] = 'volume'
+    c['channels'] = 0
+    c['dtype'] = 'float64'
+    c['mode'] = rng.choice(PAD_MODES)
+    c['mode_as_str'] = rng.random() < 0.3
+    c['cval'] = rng.choice(['0', '-7', '5/2', '1000', '0']) if c['mode'] == 'CONSTANT' else rng.choice(['0', '3'])
+    return c
+
+
+def _geq_T(c):
+    """atol (mm) above the bound of C09_match_sound_geometry_equal for this case"""
+    tol = F(c['tol']) if c.get('tol') is not None else F(1, 100000)
+    if c['expect'] == 'ok':
+        return None            # exact target: the default tolerance must do
+    sg, sh = gS(c['g']), gS(c['h'])
+    return float(4 * tol * max(sum(sg), max(sh) + max(sg)))
+
+
+def _pts_case(rng, hi, kind):
+    c = _v2v(rng, hi, rng.choice(['v2v', 'v2v', 'v2v_outside']) if kind != 'via_phys_b' else 'v2v_boundary')
+    c['orig_kind'] = c['kind']
+    c['kind'] = 'via_phys' if kind == 'via_phys_b' else kind
+    if kind == 'via_phys':
+        c['check'] = rng.random() < 0.7
+    return c
+
+
 def gen_cases(rng, tier):
     n = {'quick': 60, 'thorough': 1500, 'search': 400}[tier]
     hi = 5 if tier == 'quick' else 7
@@ -628,6 +677,16 @@ def gen_cases(rng, tier):
             cases.append(_v2v(rng, hi, kind))
     for _ in range(n // 3):
         cases.append(_bad_points(rng, hi))
+    for _ in range(2 * n):
+        cases.append(_match_mode(rng, hi))
+    for _ in range(n // 2):
+        cases.append(_pts_case(rng, hi, 'v2v_affine'))
+    for _ in range(n // 2):
+        cases.append(_pts_case(rng, hi, 'i2r'))
+    for _ in range(n):
+        cases.append(_pts_case(rng, hi, 'via_phys'))
+    for _ in range(n // 2):
+        cases.append(_pts_case(rng, hi, 'via_phys_b'))
     return cases
 
 
@@ -661,6 +720,40 @@ def _apply_chain(vol, ops):
     return vol
 
 
+def _run_points_ext(c):
+    import numpy as np
+    import highdicom as hd
+    k = c['kind']
+    a = build(c['g'], c['kinds'][0])
+    b = build(c['h'], c['kinds'][1])
+    pts = np.array([[float(F(v)) for v in p] for p in c['pts']], dtype=np.float64).reshape(-1, 3)
+    if c.get('int_input'):
+        pts = pts.astype(np.int64)
+    if k == 'v2v_affine':
+        def f():
+            t = hd.VolumeToVolumeTransformer(a, b, round_output=c['round'], check_bounds=c['check'])
+            A = t.affine
+            if A.shape != (4, 4) or A[3].tolist() != [0.0, 0.0, 0.0, 1.0]:
+                raise AssertionError('affine is not a homogeneous 4x4 matrix')
+            keep = A.copy()
+            A[:] = 7.0                      # the property must hand out a copy
+            if not np.array_equal(t.affine, keep):
+                raise AssertionError('affine property aliases the internal matrix')
+            return [keep[:3, j].tolist() for j in range(4)]
+        return catch(f)
+    if k == 'i2r':
+        return catch(lambda: a.map_indices_to_reference(pts).tolist())
+
+    def direct():
+        t = hd.VolumeToVolumeTransformer(a, b, round_output=c['round'], check_bounds=c['check'])
+        return t(pts).tolist()
+
+    def via():
+        x = a.map_indices_to_reference(pts)
+        return b.map_reference_to_indices(x, round_output=c['round'], check_bounds=c['check']).tolist()
+    return [catch(direct), catch(via)]
+
+
 def run_impl(c):
     import numpy as np
     import highdicom as hd
@@ -673,6 +766,8 @@ def run_impl(c):
             return bool(a.geometry_equal(b))
         tol = None if c['tol'] == 'none' else float(F(c['tol']))
         return bool(a.geometry_equal(b, tol=tol))
+    if k in ('v2v_affine', 'i2r', 'via_phys'):
+        return _run_points_ext(c)
     if k.startswith('match'):
         src = build(c['g'], c['src_kind'], c.get('channels', 0), c.get('dtype', 'float64'))
         if c['tgt_kind'] == 'chain':
@@ -684,6 +779,20 @@ def run_impl(c):
         before = None if c['src_kind'] == 'geometry' else src.array.copy()
         A0 = src.affine.copy()
         kw = {} if c.get('tol') is None else {'tol': float(F(c['tol']))}
+
+        if k == 'match_mode':
+            kw['mode'] = c['mode'].lower() if c.get('mode_as_str') else hd.PadModes[c['mode']]
+            kw['constant_value'] = float(F(c['cval']))
+
+            def fm():
+                r = src.match_geometry(tgt, **kw)
+                if not (bool(np.array_equal(src.affine, A0)) and bool(np.array_equal(src.array, before))):
+                    raise AssertionError('source modified')
+                T = _geq_T(c)
+                geq = bool(r.geometry_equal(tgt)) if T is None else bool(r.geometry_equal(tgt, tol=T))
+                vals = [float(x) for x in np.asarray(r.array, dtype=np.float64).reshape(-1).tolist()]
+                return [_geom_out(r), vals, [geq]]
+            return catch(fm)
 
         def f():
             r = src.match_geometry(tgt, **kw)
@@ -745,6 +854,16 @@ def coq_term(c):
     if k.startswith('geq'):
         tol = {'default': '(Some (1 # 100000)%Q)', 'none': 'None'}.get(c['tol']) or f"(Some {q(c['tol'])})"
         return f"(run_geq {tol} {g_coq(c['g'])} {g_coq(c['h'])})"
+    if k == 'match_mode':
+        tol = q(c['tol']) if c.get('tol') is not None else '(1 # 100000)%Q'
+        return f"(run_match_mode {tol} {COQ_MODE[c['mode']]} {q(c['cval'])} {g_coq(c['g'])} {g_coq(c['h'])})"
+    if k == 'v2v_affine':
+        return f"(run_v2v_affine {g_coq(c['g'])} {g_coq(c['h'])})"
+    if k in ('i2r', 'via_phys'):
+        pts = '[' + '; '.join(_v3([F(round(F(v))) for v in p] if c.get('int_input') else p) for p in c['pts']) + ']'
+        if k == 'i2r':
+            return f"(run_idx2ref {g_coq(c['g'])} {pts})"
+        return f"(run_via_phys {g_coq(c['g'])} {g_coq(c['h'])} {_b(c['round'])} {_b(c['check'])} {pts})"
     if k.startswith('match'):
         tol = q(c['tol']) if c.get('tol') is not None else '(1 # 100000)%Q'
         fn = 'run_match_g' if c['src_kind'] == 'geometry' else 'run_match'
@@ -874,10 +993,101 @@ def _oracle_points(c, out):
     return None
 
 
+def _oracle_match_mode(c, out):
+    """geometry as for the plain match; voxel VALUES per pad mode, through physical coordinates"""
+    import numpy as np
+    exp = c['expect']
+    if isinstance(out, Err) or exp == 'refuse':
+        return _oracle_match(c, out)
+    geom, vals, flags = out
+    msg = _oracle_match(dict(c, src_kind='geometry'), [geom, [True]])
+    if msg:
+        return msg
+    if flags != [True]:
+        return (f'result.geometry_equal(target{"" if _geq_T(c) is None else ", tol=%g" % _geq_T(c)}) is False after a '
+                f'successful match (pert={c.get("pert")})')
+    g, h = c['g'], c['h']
+    A, B = g_affine(g), g_affine(h)
+    n = g['shape']
+    N = n[0] * n[1] * n[2]
+    vals = np.array(vals, dtype=float).reshape(h['shape'])
+    vt = 1e-6 if exp == 'ok' else 0.45
+    padv = {'CONSTANT': float(F(c['cval'])), 'MINIMUM': 1.0, 'MAXIMUM': float(N), 'MEAN': (N + 1) / 2,
+            'MEDIAN': (N + 1) / 2}.get(c['mode'])
+    for idx in itertools.product(*[range(x) for x in h['shape']]):
+        x = B[:3, :3] @ np.array(idx, dtype=float) + B[:3, 3]
+        s = np.linalg.solve(A[:3, :3], x - A[:3, 3])
+        r = np.rint(s)
+        if np.abs(s - r).max() > vt:
+            return f'target voxel {idx} does not fall on a source voxel centre (source index {s.tolist()})'
+        inside = all(0 <= r[d] < n[d] for d in range(3))
+        if not inside and c['mode'] == 'EDGE':
+            r = np.array([min(max(r[d], 0), n[d] - 1) for d in range(3)])
+        if inside or c['mode'] == 'EDGE':
+            want = 1.0 + (r[0] * n[1] + r[1]) * n[2] + r[2]
+        else:
+            want = padv
+        if vals[idx] != want:
+            return (f'voxel {idx} of the result holds {vals[idx]}, expected {want} (mode {c["mode"]}, '
+                    f'{"inside" if inside else "outside"} the source, source index {r.tolist()})')
+    return None
+
+
+def _oracle_points_ext(c, out):
+    import numpy as np
+    g, h = c['g'], c['h']
+    A, B = g_affine(g), g_affine(h)
+    k = c['kind']
+    pts = np.array([[float(F(v)) for v in p] for p in c['pts']], dtype=float).reshape(-1, 3)
+    if c.get('int_input'):
+        pts = np.rint(pts)
+    if k == 'v2v_affine':
+        if isinstance(out, Err):
+            return f'transformer affine raised {out}'
+        T = np.linalg.solve(B, A)
+        got = np.array(out, dtype=float).T          # 3 x 4
+        if not np.allclose(got, T[:3, :], rtol=1e-9, atol=1e-7 * max(1.0, float(np.abs(T).max()))):
+            return f'transformer affine {got.tolist()} is not inv(B).A {T[:3].tolist()}'
+        return None
+    if k == 'i2r':
+        if isinstance(out, Err):
+            return f'map_indices_to_reference raised {out}'
+        want = (A[:3, :3] @ pts.T).T + A[:3, 3]
+        got = np.array(out, dtype=float).reshape(-1, 3)
+        if got.shape != want.shape or not np.allclose(got, want, rtol=1e-12, atol=1e-9 * max(1.0, float(np.abs(want).max()))):
+            return f'map_indices_to_reference gave {got.tolist()}, expected {want.tolist()}'
+        return None
+    # via_phys: each route judged on its own, then against each other
+    direct, via = out
+    m1 = _oracle_points(dict(c, kind=c.get('orig_kind', 'v2v')), direct)
+    if m1:
+        return 'transformer: ' + m1
+    phys = (A[:3, :3] @ pts.T).T + A[:3, 3]
+    c2 = dict(c, kind='r2i_boundary' if c.get('orig_kind') == 'v2v_boundary' else 'r2i',
+              pts=[[str(F(float(v))) for v in p] for p in phys.tolist()], int_input=False)
+    m2 = _oracle_points(c2, via)
+    if m2:
+        return 'physical route: ' + m2
+    if isinstance(direct, Err) or isinstance(via, Err):
+        if isinstance(via, Err) and not isinstance(direct, Err):
+            return 'map_reference_to_indices refused points that the transformer accepted'
+        if isinstance(direct, Err) and not isinstance(via, Err) and not c['round']:
+            return 'the transformer refused points that the route through physical space accepted (no rounding)'
+        return None
+    d, v = np.array(direct, dtype=float), np.array(via, dtype=float)
+    if d.shape != v.shape or not np.allclose(d, v, rtol=0, atol=1e-6 * max(1.0, float(np.abs(v).max()))):
+        return f'transformer indices {d.tolist()} differ from the route through physical space {v.tolist()}'
+    return None
+
+
 def oracle(c, out):
     k = c['kind']
     if k.startswith('geq'):
         return _oracle_geq(c, out)
+    if k == 'match_mode':
+        return _oracle_match_mode(c, out)
+    if k in ('v2v_affine', 'i2r', 'via_phys'):
+        return _oracle_points_ext(c, out)
     if k.startswith('match'):
         return _oracle_match(c, out)
     if k == 'bad_points':
